@@ -53,17 +53,18 @@ VARIABLES
   started,  \* the worker has been started at least once (its context listener exists)
   overlap,  \* two state-changing control calls have been in progress at the same time (their combined effect is unspecified)
   pcancel,  \* the user's context has been cancelled (the listener may stop the worker at any later moment)
+  consOf,   \* job -> consumer that ran it (distributed queues)
   ad        \* adapter bookkeeping
 
 vars == <<l, hdr, E, sub, addCall, addRet, enters, exits, enterAt, exitAt, deqd, closeStarted, closeNil, mp,
           waitRet, lastRes, rank, pend, R, ctlPending, ws, epoch, pauseStarts, concNow, concMax, concSince,
-          qclosed, lastExitAt, lastDeqAt, rr, rrPrev, crashed, raced, overlap, pcancel, ref, started, ad>>
+          qclosed, lastExitAt, lastDeqAt, rr, rrPrev, crashed, raced, overlap, pcancel, ref, started, consOf, ad>>
 
 NoCall == [op |-> "none", job |-> 0, qi |-> 0, b |-> 0, n |-> 0, at |-> 0, snap |-> {}, clean |-> FALSE, entered |-> {},
            solo |-> FALSE, ref |-> "unknown", same |-> FALSE, rankFloor |-> -1, closedBefore |-> FALSE, qclosedBefore |-> FALSE, waitedBefore |-> FALSE]
 NoHdr == [ev |-> "reset", ep |-> "", mode |-> "gated", wk |-> "plain", conc |-> 1, ncpu |-> 1, queues |-> <<>>, jobs |-> <<>>,
           batches |-> <<>>, clients |-> <<>>, expiry |-> 0, ratio |-> 0, ctx |-> FALSE, strategy |-> "rr",
-          idgen |-> FALSE, nobind |-> FALSE, family |-> ""]
+          idgen |-> FALSE, nobind |-> FALSE, family |-> "", consumers |-> 1, preload |-> <<>>]
 
 SumSeq(s) == LET F[i \in 0..Len(s)] == IF i = 0 THEN 0 ELSE F[i - 1] + s[i] IN F[Len(s)]
 Max(S) == CHOOSE x \in S : \A y \in S : y <= x
@@ -99,7 +100,7 @@ NormConc(n) == IF n < 1 THEN hdr.ncpu ELSE n
 
 Blank(h) ==
   /\ hdr' = h
-  /\ sub' = [j \in {h.jobs[i].key : i \in DOMAIN h.jobs} |-> "none"]
+  /\ sub' = [j \in {h.jobs[i].key : i \in DOMAIN h.jobs} |-> IF \E i \in DOMAIN h.preload : h.preload[i] = j THEN "acc" ELSE "none"]
   /\ addCall' = [j \in DOMAIN sub' |-> 0] /\ addRet' = [j \in DOMAIN sub' |-> 0]
   /\ enters' = [j \in DOMAIN sub' |-> 0] /\ exits' = [j \in DOMAIN sub' |-> 0]
   /\ enterAt' = [j \in DOMAIN sub' |-> 0] /\ exitAt' = [j \in DOMAIN sub' |-> 0]
@@ -112,26 +113,26 @@ Blank(h) ==
   /\ ws' = IF h.nobind THEN "initiated" ELSE "running"
   /\ epoch' = "open" /\ pauseStarts' = 0
   /\ concNow' = {NormConc(h.conc)} /\ concMax' = NormConc(h.conc)
-  /\ concSince' = [j \in DOMAIN sub' |-> 0]
+  /\ concSince' = [j \in DOMAIN sub' |-> 0] /\ consOf' = [j \in DOMAIN sub' |-> 0]
   /\ qclosed' = [q \in DOMAIN h.queues |-> "open"]
   /\ lastExitAt' = 0 /\ lastDeqAt' = 0 /\ rr' = 1 /\ rrPrev' = 1
   /\ crashed' = FALSE /\ raced' = FALSE /\ pcancel' = FALSE /\ overlap' = FALSE /\ ref' = (IF h.nobind THEN "initiated" ELSE "running") /\ started' = ~h.nobind
-  /\ ad' = [pending |-> <<>>, unacked |-> {}, acked |-> {}, issued |-> {}, badack |-> 0, earlyack |-> 0, enq |-> {}]
+  /\ ad' = [pending |-> <<>>, unacked |-> {}, acked |-> {}, issued |-> {}, badack |-> 0, earlyack |-> 0, enq |-> {}, lost |-> {}, purged |-> {}, notified |-> 0]
 
 Init ==
   /\ l = 1 /\ E = NoHdr /\ hdr = NoHdr
   /\ sub = <<>> /\ addCall = <<>> /\ addRet = <<>> /\ enters = <<>> /\ exits = <<>> /\ enterAt = <<>> /\ exitAt = <<>>
   /\ deqd = <<>> /\ closeStarted = <<>> /\ closeNil = <<>> /\ mp = <<>> /\ waitRet = <<>> /\ lastRes = <<>> /\ rank = <<>>
   /\ pend = <<>> /\ R = NoCall /\ ctlPending = 0 /\ ws = "initiated" /\ epoch = "open" /\ pauseStarts = 0
-  /\ concNow = {1} /\ concMax = 1 /\ concSince = <<>> /\ qclosed = <<>> /\ lastExitAt = 0 /\ lastDeqAt = 0 /\ rr = 1 /\ rrPrev = 1
+  /\ concNow = {1} /\ concMax = 1 /\ concSince = <<>> /\ consOf = <<>> /\ qclosed = <<>> /\ lastExitAt = 0 /\ lastDeqAt = 0 /\ rr = 1 /\ rrPrev = 1
   /\ crashed = FALSE /\ raced = FALSE /\ pcancel = FALSE /\ overlap = FALSE /\ ref = "initiated" /\ started = FALSE
-  /\ ad = [pending |-> <<>>, unacked |-> {}, acked |-> {}, issued |-> {}, badack |-> 0, earlyack |-> 0, enq |-> {}]
+  /\ ad = [pending |-> <<>>, unacked |-> {}, acked |-> {}, issued |-> {}, badack |-> 0, earlyack |-> 0, enq |-> {}, lost |-> {}, purged |-> {}, notified |-> 0]
 
 -----------------------------------------------------------------------------
 (* One step per trace line *)
 
 U(v) == UNCHANGED v
-jobVars == <<sub, addCall, addRet, enters, exits, enterAt, exitAt, deqd, closeStarted, closeNil, mp, waitRet, lastRes, rank, concSince>>
+jobVars == <<sub, addCall, addRet, enters, exits, enterAt, exitAt, deqd, closeStarted, closeNil, mp, waitRet, lastRes, rank, concSince, consOf>>
 ctlVars == <<pend, R, ctlPending, ws, epoch, pauseStarts, concNow, concMax, qclosed, pcancel, overlap, ref, started>>
 miscVars == <<lastExitAt, lastDeqAt, rr, rrPrev, crashed, raced, ad>>
 
@@ -180,7 +181,7 @@ OnCall(e) ==
   /\ pcancel' = (pcancel \/ (e.op = "CancelCtx" /\ hdr.ctx))
   /\ U(<<ref, started>>)
   /\ overlap' = (overlap \/ (e.op \in StateChanging /\ \E c \in Clients : pend[c].op \in StateChanging))
-  /\ U(<<addRet, enters, exits, enterAt, exitAt, deqd, closeNil, waitRet, lastRes, rank>>)
+  /\ U(<<addRet, enters, exits, enterAt, exitAt, deqd, closeNil, waitRet, lastRes, rank, consOf>>)
   /\ U(miscVars)
 
 WsOf(s) == IF s = "Running" THEN "running" ELSE IF s = "Paused" THEN "paused" ELSE IF s = "Stopped" THEN "stopped"
@@ -222,14 +223,15 @@ OnRet(e) ==
   /\ qclosed' = [q \in Queues |-> IF pc.op = "QClose" /\ pc.qi = q THEN "closed" ELSE qclosed[q]]
   /\ ref' = IF pc.op \in ControlOps /\ pc.op # "CancelCtx" THEN (IF pc.ref = "unknown" THEN "unknown" ELSE RefNext(pc.ref, pc.op)) ELSE ref
   /\ started' = (started \/ (pc.op \in {"Bind", "Restart"}) \/ (pc.op = "Resume" /\ e.res = "nil"))
-  /\ U(<<addCall, enters, exits, enterAt, exitAt, deqd, closeStarted, mp, concSince, concMax, pcancel, overlap>>)
+  /\ U(<<addCall, enters, exits, enterAt, exitAt, deqd, closeStarted, mp, concSince, concMax, pcancel, overlap, consOf>>)
   /\ U(miscVars)
 
 OnEnter(e) ==
   /\ IF e.job \in Jobs
        THEN /\ enters' = [enters EXCEPT ![e.job] = @ + 1]
             /\ enterAt' = [enterAt EXCEPT ![e.job] = IF @ = 0 THEN l ELSE @]
-       ELSE U(<<enters, enterAt>>)
+            /\ consOf' = [consOf EXCEPT ![e.job] = e.cons]
+       ELSE U(<<enters, enterAt, consOf>>)
   /\ pauseStarts' = IF epoch = "pause" THEN pauseStarts + 1 ELSE pauseStarts
   /\ U(<<sub, addCall, addRet, exits, exitAt, deqd, closeStarted, closeNil, mp, waitRet, lastRes, rank, concSince>>)
   /\ U(<<pend, R, ctlPending, ws, epoch, concNow, concMax, qclosed, pcancel, overlap, ref, started>>)
@@ -241,7 +243,7 @@ OnExit(e) ==
             /\ exitAt' = [exitAt EXCEPT ![e.job] = l]
        ELSE U(<<exits, exitAt>>)
   /\ lastExitAt' = l
-  /\ U(<<sub, addCall, addRet, enters, enterAt, deqd, closeStarted, closeNil, mp, waitRet, lastRes, rank, concSince>>)
+  /\ U(<<sub, addCall, addRet, enters, enterAt, deqd, closeStarted, closeNil, mp, waitRet, lastRes, rank, concSince, consOf>>)
   /\ U(ctlVars)
   /\ U(<<lastDeqAt, rr, rrPrev, crashed, raced, ad>>)
 
@@ -249,14 +251,16 @@ OnDeq(e) ==
   /\ deqd' = [j \in Jobs |-> deqd[j] \/ j = e.job]
   /\ rr' = IF e.job \in Jobs /\ Len(hdr.queues) > 0 THEN (QOf(e.job) % Len(hdr.queues)) + 1 ELSE rr
   /\ lastDeqAt' = l /\ rrPrev' = rr
-  /\ U(<<sub, addCall, addRet, enters, exits, enterAt, exitAt, closeStarted, closeNil, mp, waitRet, lastRes, rank, concSince>>)
+  /\ U(<<sub, addCall, addRet, enters, exits, enterAt, exitAt, closeStarted, closeNil, mp, waitRet, lastRes, rank, concSince, consOf>>)
   /\ U(ctlVars)
   /\ U(<<lastExitAt, crashed, raced, ad>>)
 
 \* adapter calls (recording adapter): enq / deq / ack / purge
 OnAd(e) ==
   /\ ad' =
-       IF e.op = "enq" /\ e.ok THEN [ad EXCEPT !.pending = Append(@, e.eseq), !.enq = @ \cup {e.eseq}]
+       IF e.op = "enq" /\ e.ok THEN [ad EXCEPT !.pending = Append(@, e.eseq), !.enq = @ \cup {e.eseq}, !.notified = @ + (IF e.n > 0 THEN 1 ELSE 0)]
+       ELSE IF e.op = "deq" /\ e.ok /\ e.ack = "" THEN          \* removed without an acknowledgement id: gone for good
+            [ad EXCEPT !.pending = SelectSeq(@, LAMBDA x : x # e.eseq), !.lost = @ \cup {e.eseq}]
        ELSE IF e.op = "deq" /\ e.ok THEN
             [ad EXCEPT !.pending = SelectSeq(@, LAMBDA x : x # e.eseq), !.unacked = @ \cup {<<e.ack, e.eseq, e.job>>}, !.issued = @ \cup {e.ack}]
        ELSE IF e.op = "ack" THEN
@@ -266,7 +270,7 @@ OnAd(e) ==
             IN IF known /\ ~e.refused THEN [ad EXCEPT !.unacked = @ \ {u0}, !.acked = @ \cup {u0}, !.earlyack = @ + early]
                ELSE IF known THEN [ad EXCEPT !.earlyack = @ + early]
                ELSE [ad EXCEPT !.badack = @ + 1]
-       ELSE IF e.op = "purge" THEN [ad EXCEPT !.pending = <<>>]
+       ELSE IF e.op = "purge" THEN [ad EXCEPT !.pending = <<>>, !.purged = @ \cup Range(ad.pending)]
        ELSE ad
   /\ U(jobVars) /\ U(ctlVars)
   /\ U(<<lastExitAt, lastDeqAt, rr, rrPrev, crashed, raced>>)
@@ -412,7 +416,24 @@ C10_Released == Quiescent => \A c \in Clients : pend[c].op \in {"Wait", "Result"
 C11_AckIssued == ad.badack = 0
 C11_AckAfter == ad.earlyack = 0
 \* every accepted entry is processed completely (acked after exit), or pending, or delivered-unacked
-C11_NoLoss == \A s \in ad.enq : (\E i \in DOMAIN ad.pending : ad.pending[i] = s) \/ (\E u \in ad.unacked \cup ad.acked : u[2] = s)
+C11_NoLoss == \A s \in ad.enq : (\E i \in DOMAIN ad.pending : ad.pending[i] = s) \/ (\E u \in ad.unacked \cup ad.acked : u[2] = s) \/ s \in ad.purged
+\* at rest a running worker has taken everything out of the adapter and acknowledged what it has run completely
+C11_Drained == RunningAtRest /\ NoUnknown /\ (\E q \in Queues : IsAdapterQ(q)) => ad.pending = <<>>
+\* recovery: entries already held by the adapter when the worker is bound are processed without any further call
+C11_Recovery == RunningAtRest => \A i \in DOMAIN hdr.preload : hdr.preload[i] \in Jobs => exits[hdr.preload[i]] >= 1
+
+---- \* C12 isolation of bad entries (fidelity of payloads: see the codec log, CodecOK)
+C12_NoBadRun == E.ev = "enter" => E.job \in Jobs
+C12_IdKept == E.ev = "enter" /\ E.job \in Jobs /\ IsAdapterQ(QOf(E.job)) => E.id = ExpectedId(E.job)
+C12_ValidAllRun == RunningAtRest /\ NoUnknown /\ (\E q \in Queues : IsAdapterQ(q)) => \A j \in Jobs : Accepted(j) /\ ~Excused(j) => exits[j] = 1
+C12_Codec == E.ev = "codec" => E.ok
+
+---- \* C13 distributed consumers
+C13_ExactlyOne == \A j \in Jobs : enters[j] <= 1
+C13_AllProcessed == RunningAtRest /\ NoUnknown /\ hdr.consumers > 1 => \A j \in Jobs : Accepted(j) /\ ~Excused(j) => exits[j] = 1
+C13_Submitted == Quiescent /\ (\E q \in Queues : hdr.queues[q] \in {"dfifo", "dprio"}) => \A i \in DOMAIN E.csub : E.csub[i] = ad.notified
+C13_Bound == \A c \in 0..(hdr.consumers - 1) : Cardinality({j \in Inflight : consOf[j] = c}) <= concMax
+C13_NoLoss == C11_NoLoss
 
 ---- \* C14 lifecycle machine
 IsCtlRet == E.ev = "ret" /\ (E.op \in ControlOps \/ E.op = "TunePool") /\ E.op # "CancelCtx"
